@@ -177,6 +177,16 @@ def run_block(stmts, env, max_steps=2000):
                 v = evaluate(s.value, env)
                 for tg in s.targets: assign(tg, v)
                 continue
+            if isinstance(s, ast.Delete):
+                for tg in s.targets:
+                    if isinstance(tg, ast.Subscript) and not isinstance(tg.slice, ast.Slice):
+                        base = evaluate(tg.value, env)
+                        if not isinstance(base, (dict, list)): raise Unsupported("del on " + type(base).__name__)
+                        try: del base[evaluate(tg.slice, env)]
+                        except (KeyError, IndexError): raise Raised("KeyError")
+                    elif isinstance(tg, ast.Name): env.pop(tg.id, None)
+                    else: raise Unsupported("del target " + ast.unparse(tg))
+                continue
             if isinstance(s, ast.Assert):
                 if not evaluate(s.test, env): raise Raised("AssertionError")
                 continue
